@@ -78,7 +78,10 @@ enum Usage {
     Normal,
     UnknownSubcommand,
     MissingFileArgument,
+    /// FILE followed by a second operand that names no file
     SurplusArgument,
+    /// an operand that names no file, followed by FILE
+    SurplusArgumentFirst,
     UnknownFlag,
 }
 
@@ -105,6 +108,7 @@ struct WorldSpec {
     relative_path: bool,
     stdin: Vec<u8>,
     stdin_not_utf8: bool,
+    missing_name_not_utf8: bool,
     stdin_kind: StdinKind,
     env: Vec<(String, String)>,
     hash_seed: u64,
@@ -120,12 +124,13 @@ fn has_loops(ops: &[Op]) -> bool {
 
 fn gen_world(t: &mut Tape) -> WorldSpec {
     let sub = [Sub::Exec, Sub::Lint, Sub::Parse][t.weighted(&[6, 2, 2])];
-    let usage = match t.weighted(&[20, 1, 1, 1, 1]) {
+    let usage = match t.weighted(&[20, 1, 1, 1, 1, 1]) {
         0 => Usage::Normal,
         1 => Usage::UnknownSubcommand,
         2 => Usage::MissingFileArgument,
         3 => Usage::SurplusArgument,
-        _ => Usage::UnknownFlag,
+        4 => Usage::UnknownFlag,
+        _ => Usage::SurplusArgumentFirst,
     };
     let (mut source_kind, mut source, mut stdin, mut loop_free): (&'static str, Vec<u8>, Vec<u8>, bool) =
         match t.weighted(&[5, 3, 2, 2]) {
@@ -175,6 +180,19 @@ fn gen_world(t: &mut Tape) -> WorldSpec {
         for i in 0..n {
             stdin.extend_from_slice(format!("bulk line number {} of the large input\n", i).as_bytes());
         }
+    }
+    // control characters inside string literals (they reach say output, the
+    // syntax tree, and the texts the lint quotes)
+    if t.chance(1, 8) && source_kind != "parse error on a chosen line" {
+        let lit = *t.pick(&[
+            "bell\u{7}and\u{8}backspace",
+            "carriage\rreturn inside",
+            "esc\u{1b}alone and vt\u{b}ff\u{c}",
+            "del\u{7f}and nul-free \u{1}\u{2}",
+        ]);
+        let mut pre = format!("Put \"{}\" into Gizmo\nSay Gizmo\n", lit).into_bytes();
+        pre.extend_from_slice(&source);
+        source = pre;
     }
     // occasionally a program file larger than any stdio or pipe buffer
     if t.chance(1, 40) {
@@ -281,6 +299,7 @@ fn gen_world(t: &mut Tape) -> WorldSpec {
         relative_path: t.chance(1, 2),
         stdin,
         stdin_not_utf8,
+        missing_name_not_utf8: t.chance(1, 3),
         stdin_kind,
         env,
         hash_seed,
@@ -652,12 +671,21 @@ impl Property for C20 {
         } else {
             path.to_string_lossy().to_string()
         };
-        let args: Vec<String> = match w.usage {
-            Usage::Normal => vec![w.sub.name().into(), file_arg.clone()],
-            Usage::UnknownSubcommand => vec!["perform".into(), file_arg.clone()],
+        use std::ffi::OsString;
+        use std::os::unix::ffi::OsStringExt;
+        let file_os: OsString = if w.fault == FileFault::Missing && w.missing_name_not_utf8 {
+            // a missing file whose name is not valid UTF-8
+            OsString::from_vec(b"no-such-caf\xe9.rock".to_vec())
+        } else {
+            OsString::from(file_arg.clone())
+        };
+        let args: Vec<OsString> = match w.usage {
+            Usage::Normal => vec![w.sub.name().into(), file_os.clone()],
+            Usage::UnknownSubcommand => vec!["perform".into(), file_os.clone()],
             Usage::MissingFileArgument => vec![w.sub.name().into()],
-            Usage::SurplusArgument => vec![w.sub.name().into(), file_arg.clone(), "extra".into()],
-            Usage::UnknownFlag => vec![w.sub.name().into(), "--frobnicate".into(), file_arg.clone()],
+            Usage::SurplusArgument => vec![w.sub.name().into(), file_os.clone(), "no-such-extra.rock".into()],
+            Usage::SurplusArgumentFirst => vec![w.sub.name().into(), "no-such-extra.rock".into(), file_os.clone()],
+            Usage::UnknownFlag => vec![w.sub.name().into(), "--frobnicate".into(), file_os.clone()],
         };
         let mut env = w.env.clone();
         env.push(("RRSS_VERIF_HASH_SEED".into(), w.hash_seed.to_string()));
@@ -771,7 +799,7 @@ impl Property for C20 {
 
         let world_json = |sep: &ProcResult, shared: &ProcResult| {
             J::obj(vec![
-                ("argv", J::A(args.iter().map(|a| J::s(a.clone())).collect())),
+                ("argv", J::A(args.iter().map(|a| J::s(a.to_string_lossy().to_string())).collect())),
                 ("environment", J::A(spec.env.iter().map(|(k, v)| J::s(format!("{}={}", k, v))).collect())),
                 ("file_fault", J::s(format!("{:?}", w.fault))),
                 ("file_reached_via", J::s(format!("{:?}", w.file_via))),
